@@ -5,7 +5,7 @@ ID = 'C15'
 RULE = ('one case = the real selector actor (start_node_selector + DCAwareSelector) for one local node, a sequence of membership updates (layouts up to 4 DCs x 4 nodes, '
         'the local node at every position, DCs appearing/disappearing/shrinking) and selections at all eight consistency levels; the data centres picked by the random '
         'choose_multiple are recorded by hook H3 and handed to the model; results compared with the Lean model after every call; python oracle = the property itself '
-        '(distinct, not local, within the CURRENT layout, enough, NotEnoughNodes only when too few others exist); plus REAL DatacakeNodes (builder + chitchat over loopback + membership watcher + selector; listen address equal to / different from the advertised one) asking their own selector for every level; quick: all levels x all prior-selection pairs on ~60 layouts + random; '
+        '(distinct, not local, within the CURRENT layout, enough, NotEnoughNodes only when too few others exist); plus the wiring membership -> selector (the real watch_membership_changes task fed snapshots with data centres, then selections at every level: quorum sizes count the local node); plus REAL DatacakeNodes (builder + chitchat over loopback + membership watcher + selector; listen address equal to / different from the advertised one) asking their own selector for every level; quick: all levels x all prior-selection pairs on ~60 layouts + random; '
         'thorough: all sequences of <=3 prior selections; non-trivial = at least two selections with different results or an update that removes a node; distinct by hash')
 ASSUMPTIONS = ['the per-level result cache (2 s) does not expire within a case unless the case says so (sel-expire sleeps 2.1 s)',
                'addresses are unique across the layout; the local node is a member of its own data centre (as the membership layer guarantees)']
@@ -16,7 +16,7 @@ JOBS = 8
 
 
 def removable(line):
-    return line.startswith(('sel-get', 'sel-set'))
+    return line.startswith(('sel-get', 'sel-set', 'mem-snap'))
 
 
 def fmt_layout(layout):
@@ -44,6 +44,25 @@ def augment(case, impl):
         else:
             out.append(l)
     return out
+
+
+def gen_wired(rng, idx):
+    """The wiring membership -> selector: the REAL watch_membership_changes task (hook) is fed membership snapshots (members with
+    data centres; the local node 0 at address 100 included, as the membership layer guarantees) and hands the data-centre map to
+    the real selector actor, which is then asked for selections."""
+    local_dc = rng.below(3)
+    lines = ['case %d node' % idx, 'mem-init 0 100 %d' % local_dc]
+    for _ in range(rng.range(1, 3)):
+        n_others = rng.choice([0, 1, 1, 2, 3, 3, 4, 5])
+        ms = ['0:100@%d' % local_dc]
+        for k in range(n_others):
+            mid = k + 1
+            ms.append('%d:%d@%d' % (mid, 100 + mid + 10 * rng.below(2), rng.choice([local_dc, local_dc, rng.below(3)])))
+        lines.append('mem-snap ' + ','.join(ms))
+        for _ in range(rng.range(1, 4)):
+            lines.append('sel-get ' + rng.choice(LEVELS))
+    lines.append('end')
+    return lines
 
 
 def gen_case(rng, idx):
@@ -98,6 +117,8 @@ def generate(rng, tier):
                             lines.append('sel-get ' + p)
                         lines.append('sel-get ' + lvl)
                         lines.append('end'); cases.append(lines); idx += 1
+    for _ in range(dict(quick=150, thorough=20000, search=1500)[tier]):
+        cases.append(gen_wired(rng.fork(), idx)); idx += 1
     if tier == 'thorough':
         for _ in range(3):
             c = gen_case(rng.fork(), idx); idx += 1
@@ -141,6 +162,12 @@ def oracle(case, impl):
         if out.startswith(('crash', 'panic', 'timeout')):
             bad.append('%s: %s' % (line, out)); continue
         if t[0] == 'sel-init': local, local_dc = int(t[1]), int(t[2])
+        elif t[0] == 'mem-init': local, local_dc, layout = int(t[2]), int(t[3]), {}
+        elif t[0] == 'mem-snap':
+            layout = {}
+            for m in t[1].split(','):
+                a, d = m.split('@')
+                layout.setdefault(int(d), []).append(int(a.split(':')[1]))
         elif t[0] == 'sel-set': layout = parse_layout(t[1])
         elif t[0] == 'sel-get':
             level = t[1]
